@@ -903,6 +903,105 @@ def n31_separated(pieces, file, applied):
     apply_rewrite(pieces, "N31", pat, rep, "1", file, applied)
 
 
+def n34_format_macros(pieces, argmap, file, applied):
+    """N34: `write!(f, "lit{a}lit{}", b)` / `writeln!(..)` -> `{ f.write_lit(&[bytes of lit])?; <fmt of a>?; .. ; <last piece> }`.
+    ASSUMED (core::fmt): `write!` hands the literal pieces of the format string and the `Display::fmt` output of each `{}`
+    / `{name}` argument to the formatter, in order, stopping at the first error; `writeln!` adds a final "\n".  Only
+    plain `{}` / `{ident}` placeholders (no format specs) are accepted.  Which `fmt` an argument's type selects is given
+    by the template (`//@ n34 EXPR=CALL`, `$` = the argument expression, e.g. `optional=TypeRef::fmt($,f)`,
+    `self.name=f.write_str($)`); rustc type-checks the generated call, so a wrong entry cannot verify silently."""
+    import re as _re
+    count = 0
+    while True:
+        ms = find_pattern(pieces, "write!($BLOCKARGS)") + find_pattern(pieces, "writeln!($BLOCKARGS)")
+        if not ms:
+            break
+        ms.sort(key=lambda m: m[0])
+        (k, e, caps, si) = ms[-1]        # last first, so earlier indices stay valid
+        is_ln = pieces[si[k]].text == "writeln"
+        a, b = caps["BLOCKARGS"]
+        toks = [pieces[si[j]] for j in range(a, b)]
+        # split top-level commas
+        args, cur, d = [], [], 0
+        for t in toks:
+            if t.tkind == "punct" and t.text in OPEN:
+                d += 1
+            elif t.tkind == "punct" and t.text in CLOSE:
+                d -= 1
+            if d == 0 and t.text == ",":
+                args.append(cur); cur = []
+            else:
+                cur.append(t)
+        if cur:
+            args.append(cur)
+        if len(args) < 2 or "".join(t.text for t in args[0]) != "f" or len(args[1]) != 1 or not args[1][0].text.startswith('"'):
+            raise ExtractError("N34: unsupported write!/writeln! form at line %d" % pieces[si[k]].line)
+        fmt = args[1][0].text[1:-1]
+        pos_args = ["".join(t.text for t in x) for x in args[2:]]
+        # unescape
+        def unesc(x):
+            out = bytearray(); i = 0
+            while i < len(x):
+                c = x[i]
+                if c == "\\":
+                    nx = x[i + 1]
+                    m = {"n": 10, "t": 9, "\\": 92, '"': 34, "r": 13}
+                    if nx not in m:
+                        raise ExtractError(f"N34: unsupported escape \\{nx}")
+                    out.append(m[nx]); i += 2
+                else:
+                    out.extend(c.encode("utf-8")); i += 1
+            return bytes(out)
+        parts = []   # ('lit', bytes) | ('arg', expr)
+        i = 0; lit = ""; pi = 0
+        while i < len(fmt):
+            if fmt.startswith("{{", i) or fmt.startswith("}}", i):
+                raise ExtractError("N34: escaped braces in a format string are not supported")
+            if fmt[i] == "{":
+                j = fmt.index("}", i)
+                name = fmt[i + 1:j]
+                if lit:
+                    parts.append(("lit", unesc(lit))); lit = ""
+                if name == "":
+                    if pi >= len(pos_args):
+                        raise ExtractError("N34: more {} than arguments")
+                    parts.append(("arg", pos_args[pi])); pi += 1
+                elif _re.match(r"^[A-Za-z_][A-Za-z0-9_]*$", name):
+                    parts.append(("arg", name))
+                else:
+                    raise ExtractError(f"N34: unsupported placeholder {{{name}}}")
+                i = j + 1
+            else:
+                lit += fmt[i]; i += 1
+        if is_ln:
+            lit += "\\n"
+        if lit:
+            parts.append(("lit", unesc(lit)))
+        if pi != len(pos_args):
+            raise ExtractError("N34: unused positional arguments")
+        calls = []
+        for kind, v in parts:
+            if kind == "lit":
+                calls.append("f.write_lit(&[" + ", ".join(f"0x{c:02x}u8" for c in v) + "])")
+            else:
+                key = v.replace(" ", "")
+                if key not in argmap:
+                    raise ExtractError(f"N34: no `//@ n34 {key}=CALL` entry for format argument `{v}`")
+                calls.append(argmap[key].replace("$", v))
+        if not calls:
+            out = "{ Ok(()) }"
+        else:
+            out = "{ " + " ".join(c + "?;" for c in calls[:-1]) + " " + calls[-1] + " }"
+        line = pieces[si[k]].line
+        kill(pieces, range(si[k], si[e - 1] + 1))
+        newp = [Piece(t.text, "rw", line, rule="N34", tkind=t.kind) for t in lex(out)]
+        pieces[si[k]:si[k] + 1] = newp
+        applied.add("N34", file, line, f"write!/writeln! with format \"{fmt}\" -> {len(calls)} formatter calls in order")
+        count += 1
+    if count == 0:
+        raise ExtractError("N34: no write!/writeln! found")
+
+
 def n32_canonical_loops(pieces, file, applied):
     """N32: `loop { if C { break; } REST }` -> `while !(C) { REST }` (the `if` is the first statement of the body, has no
     `else`, and contains nothing but `break;`).  The two forms are the same program; loop invariants in the templates are
@@ -1512,6 +1611,12 @@ class Generator:
                         elif d == "n31":
                             opts["n31"] = True
                             cur = None
+                        elif d.startswith("n34 ") or d == "n34":
+                            m34 = opts.setdefault("n34", {})
+                            for ent in d.split()[1:]:
+                                kx, vx = ent.split("=", 1)
+                                m34[kx] = vx
+                            cur = None
                         elif d.startswith("params ") or d == "params":
                             opts["params"] = d.split()[1:]
                             cur = None
@@ -1674,6 +1779,8 @@ class Generator:
             n30_alt(pieces, file, self.applied)
         if opts.get("n31"):
             n31_separated(pieces, file, self.applied)
+        if "n34" in opts:
+            n34_format_macros(pieces, opts["n34"], file, self.applied)
         for (rule, pat, rep, count) in opts["rewrites"]:
             apply_rewrite(pieces, rule, pat, rep, count, file, self.applied)
         if opts.get("n5"):
